@@ -112,6 +112,9 @@ def dispatchClient (toks : List String) : Option String :=
   | "blob_pack" :: inenv :: t => do
     let b ← blob? t
     some (showR ((blobPack b (← bool? inenv)).map toHex))
+  | ["getkey_result", stub, pad] => do
+    let pd ← (if pad = "none" then some none else (nat? pad).map some)
+    some (showR ((processGetKeyResult (← parseHex stub) pd).map showEnv))
   | ["protdesc_pack", sid] => do some (showR ((protDescPack (← parseHex sid)).map toHex))
   | ["protdesc_unpack", h] => do some (showR ((protDescUnpack (← parseHex h)).map toHex))
   | _ => none
